@@ -1620,10 +1620,12 @@ func (*parser).parse
   ensures p.cur.data == old(p.cur.data)
 
 func (*Context).Parse
-  props C16 C08 C01
+  props C16 C08 C01 C07
   requires ctx != nil
   ghost var parsed bool = false
   ghost at precall 1 p.parse: parsed = true; ghostAssert(p == ctx.parser && isFresh(p) && d == p.cur.data && isFresh(d) && d.codeIndex == 0 && d.ctx == ctx && specSameFlags(d, ctx))
+  // the expression budget is enforced by panic(errMaxExprCnt) inside the PEG runtime: it becomes an error only in the recovering mode (C07, C01)
+  ghost at precall 1 p.parse: ghostAssert(ctx.Config.ParseExprLimit != 0 ==> p.recover && p.maxExprCnt == ctx.Config.ParseExprLimit)
   ensures [C16] result == nil ==> parsed
   ensures old(ctx.IsRunning) ==> result != nil
 
@@ -1698,6 +1700,16 @@ func (*ParserCustomData).CommitCustomDice
   props C17 C01
   requires d != nil && 0 <= d.codeIndex && d.codeIndex <= len(d.code) && len(d.code) >= 1
   ensures [C17] d.pendingCustomDice == nil
+
+// AttrGet: the __proto__ chain is followed for a bounded number of steps (a cyclic chain is an error, not a hang: C01, C07).
+func (*VMValue).AttrGet
+  props C01 C07
+  requires ctx != nil
+  ghost at call 1 p1x.Load: ghostAssume(ret1 ==> ret0 != nil, "values held by a script dict are never nil pointers (the VM stores stack values, JSON decoding rejects null entries)")
+  ghost at call 1 proto.Load: ghostAssume(ret1 ==> ret0 != nil, "the built-in method tables hold non-nil method values (filled by package initialisation, never written afterwards)")
+  loop 1
+    invariant 0 <= depth && depth <= 64 && p1x != nil && ctx != nil
+    decreases 64 - depth
 
 // Length, GetSlice: panic-freedom of the slicing read operator (C01) — the bounds handed to the Go slice
 // expressions lie inside the sliced value for every start, end and receiver.
